@@ -50,8 +50,15 @@ func runC07(c run.Ctx) *core.CaseResult {
 		var ops []seq.Op
 		var vid uint64 = 1
 		rounds := 40 + r.IntN(50)
+		// (every second churn case writes exactly once per round: one record list per flush, so the
+		// order of the lists in the log does not depend on Go's map iteration order)
+		single := (c.Index/16)%2 == 0
 		for i := 0; i < rounds; i++ {
-			for j := 0; j < 1+r.IntN(3); j++ {
+			nw := 1 + r.IntN(3)
+			if single {
+				nw = 1
+			}
+			for j := 0; j < nw; j++ {
 				if r.IntN(8) == 0 {
 					ops = append(ops, seq.Op{Kind: "rm", K: r.IntN(len(u.Keys))})
 				} else {
